@@ -1,10 +1,10 @@
 (* C13 — RDF-star statements quote exactly the triples their quoted maps generate.  Statements only.
-   Proved for a quoted triples map in subject position over the same rows (no join condition), one level deep, whose own
-   term maps are constants, references and templates (names say _partial); quoted objects, joins and deeper nestings are
+   Proved for a quoted triples map in subject position or in object position over the same rows (no join condition), one level deep, whose own
+   term maps are constants, references and templates (names say _partial); quoted maps with joins and deeper nestings are
    decided by the correspondence part of the check against the Spec (which is recursive in the nesting depth). *)
 From Coq Require Import String.
 From Morph Require Import Base.UStr Gen.Tables Model.Terms Model.Data Model.Engine Model.Mapping Model.Spec
-     Proofs.TemplateP Proofs.TermP Proofs.RowwiseP Proofs.RowSpecP Proofs.RuleSpecP Proofs.QuotedP Proofs.NormaliseP.
+     Proofs.TemplateP Proofs.TermP Proofs.RowwiseP Proofs.RowSpecP Proofs.RuleSpecP Proofs.QuotedP Proofs.QuotedObjP Proofs.NormaliseP.
 Local Open Scope N_scope.
 
 (* the frame-wise stages of _materialize_rml_rule (quoted map, quoting, the rule's own terms, the triple string) are one
@@ -43,6 +43,32 @@ Theorem quoted_rule_statements_partial : forall cfg fe rules get_data scfg, cfg_
        exists ls, rule_triples cfg fe rules get_data rl = Ok ls).
 Proof. exact quoted_rule_is_spec. Qed.
 Print Assumptions quoted_rule_statements_partial.
+
+(* the same in object position: the statement is  s' p' << s p o >> [g] *)
+Theorem quoted_object_embeds_the_quoted_triple_partial : forall cfg fe scfg, cfg_agree cfg scfg -> c_nquads cfg = s_nquads scfg ->
+  forall rl q, r_ok rl = KQuoted -> r_ld rl = LDNone -> rule_ok false q ->
+    pos_ok (r_sk rl) (r_sv rl) (r_stt rl) -> pos_ok (r_pk rl) (r_pv rl) TIri -> graph_ok (c_nquads cfg) rl ->
+    names_free (quoted_obj_names rl q) ->
+  forall r sr, row_agree scfg sr [] r (quoted_obj_names rl q) ->
+    match (rdo fs <- pipe (quoted_obj_stages cfg fe rl q) [r]; extract_triples fs) with
+    | Ok ls => exists line, spec_quoted_obj_line scfg rl q sr = Some line /\ ls = [line]
+    | Err _ => spec_quoted_obj_line scfg rl q sr = None
+    end.
+Proof. exact quoted_obj_row_is_spec. Qed.
+Print Assumptions quoted_object_embeds_the_quoted_triple_partial.
+Theorem quoted_object_rule_statements_partial : forall cfg fe rules get_data scfg, cfg_agree cfg scfg -> c_nquads cfg = s_nquads scfg ->
+  forall rl q, r_ok rl = KQuoted -> r_ld rl = LDNone -> r_ojoin rl = [] ->
+    find_rule rules (r_ov rl) = Some q -> plain_rule q = true -> rule_ok false q ->
+    pos_ok (r_sk rl) (r_sv rl) (r_stt rl) -> pos_ok (r_pk rl) (r_pv rl) TIri -> graph_ok (c_nquads cfg) rl ->
+    names_free (quoted_obj_names rl q) ->
+  forall na refs f, s_na scfg = na -> incl (quoted_obj_names rl q) refs ->
+    get_data (r_src rl) (quoted_refs fe rules rl) = Ok (preprocess na refs f) ->
+    (forall ls, rule_triples cfg fe rules get_data rl = Ok ls ->
+       forall x, In x ls <-> exists r, In r (preprocess na refs f) /\ spec_quoted_obj_line scfg rl q (srow_of r) = Some x) /\
+    ((forall r, In r (preprocess na refs f) -> spec_quoted_obj_line scfg rl q (srow_of r) <> None) ->
+       exists ls, rule_triples cfg fe rules get_data rl = Ok ls).
+Proof. exact quoted_obj_rule_is_spec. Qed.
+Print Assumptions quoted_object_rule_statements_partial.
 
 (* asserted rules contribute their statements, non-asserted rules contribute none of their own *)
 Theorem only_asserted_rules_contribute : forall cfg fe rules get_data l, materialize_rules cfg fe rules get_data = Ok l ->
